@@ -138,9 +138,11 @@ CLAIMS = {
  'C08': dict(
     text='Proved for the model: reading a block to its closing delimiter and skipping blank lines do not depend on the lines that follow (they are carried along untouched); '
          'every delimited-block step clears the block options and a written tag consumes the attributes (C12); definitions and options change only through their elements '
-         '(C04); the generated tables map each block kind to its element and headers to h + marker length for all six lengths (kernel evaluation). The sequencing theorem '
-         'for arbitrary blocks is not proved; the block-grammar oracle checks document output = concatenation of blocks rendered alone and containers = tag pair around content.',
-    note=COMMON_NOTE + 'Partial: locality components and kind-to-element facts are proofs; sequencing is exploration.',
+         '(C04); the generated tables map each block kind to its element and headers to h + marker length for all six lengths (kernel evaluation); output already written is '
+         'never read back or rewritten - rendering the rest of a document from a writer holding earlier output equals rendering it from an empty writer with that output in front '
+         '(earlier_output_is_never_read_or_rewritten: two runs on related writers in lockstep, every block kind, lists and containers). That each block extends over exactly '
+         'the source lines the property says (sequencing of arbitrary blocks) is not proved; the block-grammar oracle checks document output = concatenation of blocks rendered alone and containers = tag pair around content.',
+    note=COMMON_NOTE + 'Partial: locality components, append-only output and kind-to-element facts are proofs; the source extent of each block is exploration.',
     technique='Lean 4 proof (reader locality by induction, regenerated table facts) + block-grammar oracle',
     ref='7 C08'),
  'C10': dict(
